@@ -31,16 +31,16 @@ PROP = dict(
                    'Map/Unmap requests: the final address space is the fold of the abstract updates - most recent successful Map wins, '
                    'unmapped absent, others unchanged, failures change nothing), inactive_leaves_active_bit_identical (PDT.Map on an '
                    'inactive table, every case: every word outside the inactive tree, the swapped/restored entry 511 included, is '
-                   'bit-identical; the inactive space changes as map_refines says), region_pages, setframe_needs_40_bits (D13). The model '
+                   'bit-identical; the inactive space changes as map_refines says), inactive_unmap_leaves_active_bit_identical, '
+                   'pdt_init_refines, region_pages + region_refines, setframe_needs_40_bits (D13). The model '
                    'is tied to the Go code by regenerated constants (a changed shift or mask breaks the proofs), by regenerated expressions '
                    '(tools/exprgen: walk\'s index / entry-address / next-table arithmetic, SetFlags, ClearFlags, Frame, Frame.Address, '
                    'Page.Address are proved equal to the model\'s terms in Tie/C04.lean, incl. the recurrence E) and by a differential run '
                    'of the real code over a software MMU with a full physical-memory comparison after every call; the property statement '
                    'is also evaluated by an independent oracle on the implementation\'s page tables.',
         level_note='Proved for the model, all cases: Map (0-3 new levels, failure anywhere), Unmap, Translate, histories, PDT.Map '
-                   'and PDT.Unmap on an inactive table. Not proved in Lean (carried by correspondence + oracle): PDT.Init '
-                   '(differential only), MapRegion/IdentityMapRegion as whole operations (their page loop is '
-                   'proved to be Map over consecutive pages/frames, region_pages, and histories of Map are covered). Hypotheses: the '
+                   'and PDT.Unmap on an inactive table. PDT.Init (pdt_init_refines) and the page loops of '
+                   'MapRegion/IdentityMapRegion (region_pages + region_refines; the reservation arithmetic is C07). Hypotheses: the '
                    'tables reachable from the root form a tree and the allocator hands out RAM frames < 2^40 that are pairwise distinct '
                    'and outside the tree (Good; holds of the boot state and is preserved by every request), pages outside slot 511. '
                    'Trusted: Lean kernel (+ propext, Classical.choice, Quot.sound), the theorem statements, the software MMU of the '
